@@ -213,6 +213,12 @@ def render_line(l):
         return render_eol(l[1])
     if k == "origin":
         return apply_case(l[1], b"$ORIGIN") + render_sep(l[2]) + render_name(l[3], l[4]) + render_eol(l[5])
+    if k == "include":
+        _, lows, s, pc, path, org, e = l
+        out = apply_case(lows, b"$INCLUDE") + render_sep(s) + render_string(pc, path)
+        if org is not None:
+            out += render_sep(org[0]) + render_name(org[1], org[2])
+        return out + render_eol(e)
     return apply_case(l[1], b"$TTL") + render_sep(l[2]) + render_uint(l[3], l[4]) + render_eol(l[5])
 
 
@@ -221,19 +227,31 @@ def render_file(lines):
 
 
 def denote(lines):
-    out, line = [], 1
+    """Records and $INCLUDE directives with their line numbers; an $INCLUDE carries the origin given, else the current one."""
+    out, line, origin = [], 1, None
     for l in lines:
         if l[0] == "rec":
-            out.append((line, l[2]))
+            out.append((line, ("rec", l[2])))
+        elif l[0] == "include":
+            out.append((line, ("include", l[4], l[5][2] if l[5] is not None else origin)))
+        elif l[0] == "origin":
+            origin = l[4]
         line += render_line(l).count(b"\n")
     return out
 
 
+def name_str(ls):
+    return "%s/%d" % (hx(field_wire(("name", ls))), len(ls) + 1)
+
+
 def show_items(items):
     res = []
-    for n, r in items:
-        w = field_wire(("name", r["owner"]))
-        res.append("R%d o=%s/%d t=%d c=%d y=%d d=%s v=ok" % (n, hx(w), len(r["owner"]) + 1, r["ttl"], r["class"], r["type"], hx(rdata_wire(r["rdata"]))))
+    for n, it in items:
+        if it[0] == "rec":
+            r = it[1]
+            res.append("R%d o=%s t=%d c=%d y=%d d=%s v=ok" % (n, name_str(r["owner"]), r["ttl"], r["class"], r["type"], hx(rdata_wire(r["rdata"]))))
+        else:
+            res.append("I%d p=%s o=%s" % (n, hx(it[1]), name_str(it[2]) if it[2] is not None else "none"))
     return " ; ".join(res + ["after=0"])
 
 
@@ -395,6 +413,13 @@ def ser_lines(lines):
             nat(1); eol(l[1])
         elif k == "origin":
             nat(2); lst(l[1], bl); sep(l[2]); nch(l[3]); labels(l[4]); eol(l[5])
+        elif k == "include":
+            nat(4); lst(l[1], bl); sep(l[2]); sch(l[3]); by(l[4])
+            if l[5] is None:
+                nat(0)
+            else:
+                nat(1); sep(l[5][0]); nch(l[5][1]); labels(l[5][2])
+            eol(l[6])
         else:
             nat(3); lst(l[1], bl); sep(l[2]); ich(l[3]); nat(l[4]); eol(l[5])
 
@@ -666,6 +691,18 @@ def gen_file(rng, nlines=None, hard=None):
             s = gen_sep(rng, st, True, True, crlf)
             lines.append(("ttl", gen_lows(rng, 4), s, gen_ich(rng), v, gen_eol(rng, st, crlf, last)))
             default = 0 if v > 0x7FFFFFFF else v
+        elif r < 0.35:
+            path = gen_string(rng, 20)
+            s = gen_sep(rng, st, True, True, crlf)
+            pc = gen_string_choice(rng, path, False)
+            org = None
+            if rng.random() < 0.5:
+                ls = gen_labels(rng, hard)
+                if origin is not None and rng.random() < 0.4:
+                    ls = gen_labels(rng, hard, 2, 255 - wire_len(origin) + 1) + origin
+                s2 = gen_sep(rng, st, not (pc[0] == "q" and rng.random() < 0.3), True, crlf)
+                org = (s2, gen_name_choice(rng, ls, origin, False, False), ls)
+            lines.append(("include", gen_lows(rng, 8), s, pc, path, org, gen_eol(rng, st, crlf, last)))
         else:
             vals = gen_rdata_values(rng, hard, origin)
             typ, c = vals[0], vals[1]
